@@ -109,6 +109,8 @@ func newOnce(x *vs.Exec, behaviour string) *onceState {
 		script = func(r *scriptRunner) { fmt.Fprintf(r.stdout, "1|99|tcp|127.0.0.1:1\n"); r.waitKilled() }
 	case "badproto": // fails late: the line is well-formed but names a protocol the client does not allow
 		script = func(r *scriptRunner) { fmt.Fprintf(r.stdout, "1|1|tcp|127.0.0.1:1|bogus\n"); r.waitKilled() }
+	case "muxno": // a gRPC plugin that knows nothing about multiplexing, asked for it (the client is configured with GRPCBrokerMultiplex)
+		script = func(r *scriptRunner) { fmt.Fprintf(r.stdout, "1|1|tcp|127.0.0.1:1|grpc|\n"); r.waitKilled() }
 	case "silent":
 		script = func(r *scriptRunner) { r.waitKilled() }
 	case "rferr":
@@ -141,6 +143,10 @@ func newOnce(x *vs.Exec, behaviour string) *onceState {
 	}
 	if behaviour == "grpc" {
 		cfg.Plugins = plugin.PluginSet{"p": &tagGRPCPlugin{tag: "t"}}
+	}
+	if behaviour == "muxno" {
+		cfg.Plugins = plugin.PluginSet{"p": &tagGRPCPlugin{tag: "t"}}
+		cfg.GRPCBrokerMultiplex = true
 	}
 	if attach != "" {
 		// the plugin is launched by another client first (set-up, no decision points)
@@ -350,7 +356,7 @@ func init() {
 			}
 			var out []explore.Params
 			var rec func(prefix []string)
-			behs := []string{"netrpc", "grpc", "badline", "badproto", "silent", "rferr", "re-netrpc", "re-grpc", "tre-netrpc", "tre-grpc", "wild4-netrpc", "wild6-grpc", "slow-netrpc", "slow-grpc", "rel-netrpc", "rel-grpc", "xre-netrpc", "xre-grpc", "noid-badline", "noid-badproto", "noid-silent", "noid-netrpc", "noid-grpc"}
+			behs := []string{"netrpc", "grpc", "badline", "badproto", "silent", "rferr", "re-netrpc", "re-grpc", "tre-netrpc", "tre-grpc", "wild4-netrpc", "wild6-grpc", "slow-netrpc", "slow-grpc", "rel-netrpc", "rel-grpc", "xre-netrpc", "xre-grpc", "noid-badline", "noid-badproto", "noid-silent", "noid-netrpc", "noid-grpc", "muxno", "noid-muxno"}
 			rec = func(prefix []string) {
 				if len(prefix) > 0 {
 					for _, b := range behs {
